@@ -163,8 +163,7 @@ Fixpoint fn_with_siblings (depth : nat) (base_name : str) (right_siblings : list
         | O => OutOfFuel
         | Datatypes.S d => fn_with_siblings d base_name (pkids first)
         end
-      else if tag_is first s_mrow && null (pkids first) then Panic 18          (* first_child.children()[0] *)
-      else
+      else                                  (* an empty mrow: `!first_child.children().is_empty() &&` (after the repair) *)
       match more with
       | [] => Ok CFalse
       | _ :: _ =>
